@@ -66,6 +66,16 @@ pub fn wal_find_abort(dir: &Path) -> Option<(u64, String)> {
     for f in files {
         if let Ok(s) = std::fs::read_to_string(&f) {
             let line = s.lines().next().unwrap_or("").trim().to_string();
+            // a library call running on a deliberately small thread stack (stack overflow = SIGSEGV, no panic hook)
+            if let Some(rest) = line.strip_prefix("IN-SMALL-STACK-THREAD ") {
+                let case = rest
+                    .split_whitespace()
+                    .next()
+                    .and_then(|t| t.strip_prefix("case="))
+                    .and_then(|t| t.parse::<u64>().ok())
+                    .unwrap_or(0);
+                return Some((case, format!("{} (process died while this ran: stack overflow or abort)", rest.trim())));
+            }
             if let Some(rest) = line.strip_prefix("PANIC-IN-LIB ") {
                 // format: case=<n> <what> :: msg
                 let case = rest
